@@ -632,14 +632,18 @@ def parseLevel (s : Str) : Res (Nat × List Order) :=
     | none => finish content none
 where
   finish (remaining : Str) (orders : Option Str) : Res (Nat × List Order) :=
-    let parts : List (Str × Str) := ((splitOn ';' remaining).filter (fun p => !p.isEmpty)).filterMap (fun p =>
-      match idxOf '=' p with
-      | some i => some (p.take i, p.drop (i + 1))
-      | none => none)
+    -- the `HashMap` of the code: the extracted bracket section first, then every `k=v` part of the
+    -- rest (a later `orders=…` part overrides the extracted section)
+    let parts : List (Str × Str) :=
+      (match orders with | some os => [(lit "orders", os)] | none => []) ++
+      ((splitOn ';' remaining).filter (fun p => !p.isEmpty)).filterMap (fun p =>
+        match idxOf '=' p with
+        | some i => some (p.take i, p.drop (i + 1))
+        | none => none)
     match (parts.reverse.find? (fun kv => kv.1 = lit "price")).bind (fun kv => parseU64 kv.2) with
     | none => .error .parseError
     | some price =>
-      match orders with
+      match (parts.reverse.find? (fun kv => kv.1 = lit "orders")).map (·.2) with
       | none => .ok (price, [])
       | some os =>
         if os.isEmpty then .ok (price, [])
